@@ -127,7 +127,7 @@ func TestWire(t *testing.T) {
 		if 20+8+len(payload) <= 65535 {
 			fail := func(what string) {
 				s.Find(Finding{Property: "C13", Signature: "asm:" + what, What: what,
-					Ops: []string{fmt.Sprintf("asmip ident=%d flags=%d ttl=%d proto=%d src=%s dst=%s udp(sp=%d,dp=%d,len=%d)", ident, flags, ttl, proto, IPStr(src), IPStr(dst), sp, dp, len(payload))},
+					Ops:      []string{fmt.Sprintf("asmip ident=%d flags=%d ttl=%d proto=%d src=%s dst=%s udp(sp=%d,dp=%d,len=%d)", ident, flags, ttl, proto, IPStr(src), IPStr(dst), sp, dp, len(payload))},
 					Observed: Hex(pb[:min(len(pb), 64)])})
 			}
 			ip, err := RefParseIPv4(pb)
